@@ -175,7 +175,7 @@ def case_strategy(draw):
     prog = draw(gen.program(cfg))
     nsets = draw(st.integers(3, 4))
     sets = [draw(options.repr_options(indirect=True if mode == "yield" else None)) for _ in range(nsets)]
-    choices = draw(st.lists(st.lists(st.integers(0, 255), min_size=1, max_size=24), min_size=1, max_size=4))
+    choices = draw(st.lists(st.lists(st.integers(0, 4095), min_size=1, max_size=24), min_size=1, max_size=4))
     return prog, list(prog.argv), sets, choices, mode
 
 
